@@ -8,6 +8,7 @@
 //	             "wb"     Driver -> writeback -> idealmemcontroller
 //	             "wtwb"   Driver -> writethroughcache -> writeback -> idealmemcontroller
 //	             "banked" Driver -> simplebankedmemory
+//	             "dram"   Driver -> dram (preset); "wbdram" Driver -> writeback -> dram
 //	             "vm"     Driver -> addresstranslator -> L1(wt) -> L2(wb) -> ideal, AT -> TLB -> L2TLB -> MMU (page table)
 package asm
 
@@ -28,6 +29,7 @@ import (
 	"github.com/sarchlab/akita/v5/mem"
 	"github.com/sarchlab/akita/v5/mem/cache/writeback"
 	"github.com/sarchlab/akita/v5/mem/cache/writethroughcache"
+	"github.com/sarchlab/akita/v5/mem/dram"
 	"github.com/sarchlab/akita/v5/mem/idealmemcontroller"
 	"github.com/sarchlab/akita/v5/mem/memprotocol"
 	"github.com/sarchlab/akita/v5/mem/simplebankedmemory"
@@ -75,6 +77,7 @@ type Config struct {
 	TLBSets   int    `json:"tlb_sets"`   // L1 TLB
 	TLBWays   int    `json:"tlb_ways"`   //
 	DriverMHz uint64 `json:"driver_mhz"` // driver frequency in MHz (others run at 1 GHz)
+	Preset    string `json:"preset"`     // DRAM preset: DDR4, DDR5, HBM2, HBM3, GDDR6 (kind "dram" / "wbdram")
 }
 
 // Normalize fills defaults.
@@ -268,7 +271,8 @@ func buildDriver(reg modeling.Registrar, c *Config, low messaging.Port) *Driver 
 
 // Sim is a built assembly.
 type Sim struct {
-	Sim     *simulation.Simulation
+	Reg     modeling.Registrar
+	Sim     *simulation.Simulation // nil when built Bare
 	Engine  *timing.SerialEngine
 	Driver  *Driver
 	Storage *mem.Storage
@@ -277,7 +281,7 @@ type Sim struct {
 	Comps   []messaging.Component
 }
 
-func assignPorts(s *simulation.Simulation, buf int, comp messaging.Component, names ...string) {
+func assignPorts(s modeling.Registrar, buf int, comp messaging.Component, names ...string) {
 	for _, name := range names {
 		p := modeling.MakePortBuilder().WithRegistrar(s).WithComponent(comp).
 			WithSpec(modeling.PortSpec{BufSize: buf}).Build(name)
@@ -285,7 +289,7 @@ func assignPorts(s *simulation.Simulation, buf int, comp messaging.Component, na
 	}
 }
 
-func connect(s *simulation.Simulation, name string, p1, p2 messaging.Port) {
+func connect(s modeling.Registrar, name string, p1, p2 messaging.Port) {
 	conn := directconnection.MakeBuilder().WithRegistrar(s).Build(name)
 	conn.PlugIn(p1)
 	conn.PlugIn(p2)
@@ -296,6 +300,10 @@ type Options struct {
 	EventTrace bool // engine Before/After hook recording the handled-event trace
 	VisTracing bool // simulation built WithVisTracingOnStart (DB tracer on every component + buffer tracing)
 	Monitoring bool
+	// Bare builds the components with a standalone registrar and a fresh engine:
+	// no simulation.Simulation, hence no DB tracer hook on components and no
+	// buffer-tracing hooks on ports — the truly unobserved baseline.
+	Bare bool
 }
 
 // Build assembles the simulation. The ID generator is reset first so every
@@ -307,15 +315,23 @@ func Build(c *Config, opt Options) *Sim {
 	if err != nil {
 		panic(err)
 	}
-	b := simulation.MakeBuilder().WithOutputFileName(filepath.Join(dir, "out")).WithoutSourceRecording()
-	if !opt.Monitoring {
-		b = b.WithoutMonitoring()
+	out := &Sim{Dir: dir}
+	if opt.Bare {
+		out.Engine = timing.NewSerialEngine()
+		out.Reg = modeling.NewStandaloneRegistrar(out.Engine)
+	} else {
+		b := simulation.MakeBuilder().WithOutputFileName(filepath.Join(dir, "out")).WithoutSourceRecording()
+		if !opt.Monitoring {
+			b = b.WithoutMonitoring()
+		}
+		if opt.VisTracing {
+			b = b.WithVisTracingOnStart()
+		}
+		out.Sim = b.Build()
+		out.Reg = out.Sim
+		out.Engine = out.Sim.GetEngine().(*timing.SerialEngine)
 	}
-	if opt.VisTracing {
-		b = b.WithVisTracingOnStart()
-	}
-	s := b.Build()
-	out := &Sim{Sim: s, Engine: s.GetEngine().(*timing.SerialEngine), Dir: dir}
+	s := out.Reg
 
 	var top messaging.Port
 	switch c.Kind {
@@ -331,6 +347,30 @@ func Build(c *Config, opt Options) *Sim {
 		out.Storage = m.Resources().Storage
 		out.Comps = append(out.Comps, m)
 		top = m.GetPortByName("Top")
+	case "dram", "wbdram":
+		var spec dram.Spec
+		switch c.Preset {
+		case "DDR5":
+			spec = dram.DDR5Spec
+		case "HBM2":
+			spec = dram.HBM2Spec
+		case "HBM3":
+			spec = dram.HBM3Spec
+		case "GDDR6":
+			spec = dram.GDDR6Spec
+		default:
+			spec = dram.DDR4Spec
+		}
+		m := dram.MakeBuilder().WithRegistrar(s).WithSpec(spec).Build("DRAM")
+		assignPorts(s, c.PortBuf, m, "Top", "Control")
+		out.Storage = m.Resources().Storage
+		out.Comps = append(out.Comps, m)
+		top = m.GetPortByName("Top")
+		if c.Kind == "wbdram" {
+			l2 := out.buildWB(c, m.GetPortByName("Top"))
+			connect(s, "ConnL2Mem", l2.GetPortByName("Bottom"), m.GetPortByName("Top"))
+			top = l2.GetPortByName("Top")
+		}
 	case "wt":
 		m := out.buildIdeal(c)
 		l1 := out.buildWT(c, m.GetPortByName("Top"))
@@ -371,8 +411,8 @@ func (o *Sim) buildIdeal(c *Config) *idealmemcontroller.Comp {
 	}
 	spec.Width = c.MemWidth
 	spec.Latency = c.MemLat
-	m := idealmemcontroller.MakeBuilder().WithRegistrar(o.Sim).WithSpec(spec).Build("MemCtrl")
-	assignPorts(o.Sim, c.PortBuf, m, "Top", "Control")
+	m := idealmemcontroller.MakeBuilder().WithRegistrar(o.Reg).WithSpec(spec).Build("MemCtrl")
+	assignPorts(o.Reg, c.PortBuf, m, "Top", "Control")
 	o.Storage = m.Resources().Storage
 	o.Comps = append(o.Comps, m)
 	return m
@@ -385,9 +425,9 @@ func (o *Sim) buildWT(c *Config, low messaging.Port) messaging.Component {
 	spec.TotalByteSize = c.L1Bytes
 	spec.AddressMapperType = "single"
 	spec.BankLatency = 3
-	l1 := writethroughcache.MakeBuilder().WithRegistrar(o.Sim).WithSpec(spec).
+	l1 := writethroughcache.MakeBuilder().WithRegistrar(o.Reg).WithSpec(spec).
 		WithResources(writethroughcache.Resources{RemotePorts: []messaging.RemotePort{low.AsRemote()}}).Build("L1")
-	assignPorts(o.Sim, c.PortBuf, l1, "Top", "Bottom", "Control")
+	assignPorts(o.Reg, c.PortBuf, l1, "Top", "Bottom", "Control")
 	o.Comps = append(o.Comps, l1)
 	return l1
 }
@@ -399,9 +439,9 @@ func (o *Sim) buildWB(c *Config, low messaging.Port) messaging.Component {
 	spec.AddressMapperType = "single"
 	spec.BankLatency = 3
 	spec.NumReqPerCycle = 2
-	l2 := writeback.MakeBuilder().WithRegistrar(o.Sim).WithSpec(spec).
+	l2 := writeback.MakeBuilder().WithRegistrar(o.Reg).WithSpec(spec).
 		WithResources(writeback.Resources{RemotePorts: []messaging.RemotePort{low.AsRemote()}}).Build("L2")
-	assignPorts(o.Sim, c.PortBuf, l2, "Top", "Bottom", "Control")
+	assignPorts(o.Reg, c.PortBuf, l2, "Top", "Bottom", "Control")
 	o.Comps = append(o.Comps, l2)
 	return l2
 }
@@ -410,7 +450,7 @@ func (o *Sim) buildWB(c *Config, low messaging.Port) messaging.Component {
 const VMBase = uint64(0x100000)
 
 func (o *Sim) buildVM(c *Config, l1top messaging.Port) messaging.Port {
-	s := o.Sim
+	s := o.Reg
 	pt := vm.MakePageTableBuilder().WithSimulation(s).WithLog2PageSize(12).Build("PageTable")
 	var maxAddr uint64
 	for _, op := range c.Ops {
@@ -461,7 +501,9 @@ func (o *Sim) Start() { o.Driver.TickLater() }
 
 // Close terminates the simulation and removes its files.
 func (o *Sim) Close() {
-	o.Sim.Terminate()
+	if o.Sim != nil {
+		o.Sim.Terminate()
+	}
 	os.RemoveAll(o.Dir)
 }
 
@@ -513,6 +555,9 @@ func (t *EventTrace) Func(ctx hooking.HookCtx) {
 // Payloads saves a checkpoint of the current state and returns, per entity name,
 // the payload bytes (the archive is a gzip'd tar).
 func (o *Sim) Payloads() (map[string][]byte, error) {
+	if o.Sim == nil {
+		return nil, fmt.Errorf("asm: bare assembly has no checkpoint")
+	}
 	path := filepath.Join(o.Dir, fmt.Sprintf("final-%d.tar.gz", len(o.Dir)))
 	if err := o.Sim.SaveCheckpoint(path, "asm"); err != nil {
 		return nil, err
@@ -565,4 +610,33 @@ func PayloadHashes(p map[string][]byte) ([]string, []uint64) {
 		hs = append(hs, h)
 	}
 	return fp, hs
+}
+
+// MemImage reads the backing storage at every 64-byte line touched by the
+// workload (physical addresses; the "vm" kind maps page i to VMBase + i*4096)
+// and returns one 62-bit hash per line, in address order.
+func (o *Sim) MemImage(c *Config) []uint64 {
+	lines := map[uint64]bool{}
+	for _, op := range c.Ops {
+		a := op.Addr
+		if c.Kind == "vm" {
+			a += VMBase
+		}
+		lines[a/64*64] = true
+	}
+	addrs := make([]uint64, 0, len(lines))
+	for a := range lines {
+		addrs = append(addrs, a)
+	}
+	sort.Slice(addrs, func(i, j int) bool { return addrs[i] < addrs[j] })
+	var out []uint64
+	for _, a := range addrs {
+		b, err := o.Storage.Read(a, 64)
+		if err != nil {
+			out = append(out, 0)
+			continue
+		}
+		out = append(out, H62(fmt.Sprintf("%d|%x", a, b)))
+	}
+	return out
 }
